@@ -46,7 +46,7 @@ def run(ctx):
     for e in done[:1] + done[-1:]:
         res.sample({"pages": e["pages"], "embedded": e["embedded"], "calls": e["calls"]})
     res.extra["sessions_from_tlc"] = len(sessions)
-    res.extra["drift_sessions_differing_from_HarvestM"] = len(r2.json_lines("VERDICT")[-1].get("drift", []))
+    res.extra["drift_sessions_differing_from_HarvestM"] = len(r2.verdict.get("drift", []))
     res.assumptions = ["items are opaque tagged strings built by a tagging constructor", "unchanged servers",
                        "an error met during look-ahead may be delivered with this request or the next"]
     for b in bad:
